@@ -209,6 +209,9 @@ func runC16(r *simkit.Run) {
 	if err != nil {
 		panic(err)
 	}
+	// The server closes each connection after its response, so that it is the server side (not an ephemeral client
+	// port) that lingers in TIME_WAIT: tens of thousands of runs per minute would otherwise exhaust the port range.
+	srv.SetKeepAlivesEnabled(false)
 	ln, err := sc.ToListener(context.Background())
 	if err != nil {
 		panic(err)
